@@ -72,6 +72,12 @@ func c18Gen(t *rapid.T) cliScenario {
 	sc.Text = pr.Text()
 	switch sc.Grammar {
 	case "syntax-error":
+		if rapid.Bool().Draw(t, "errlast") {
+			// the error sits in one more definition behind a grammar that is complete without
+			// it: whatever stops reading there has a whole parser to write
+			sc.Text += rapid.SampledFrom([]string{"Extra <- 'x' <- <- 'y'\n", "Extra <- ('x'\n", "Extra <- 'x' )\n", "Extra <- [a\n", "Extra <- 'x\n"}).Draw(t, "errdef")
+			break
+		}
 		cut := rapid.IntRange(1, len(sc.Text)-1).Draw(t, "cut")
 		sc.Text = sc.Text[:cut] + rapid.SampledFrom([]string{" <- <- ", " ) ", " ' ", "\x00"}).Draw(t, "junk") + sc.Text[cut:]
 		if rapid.Bool().Draw(t, "trunc") {
@@ -239,6 +245,9 @@ func runScenario(c *drv.Ctx, bin string, sc cliScenario, n int) string {
 		cause = "warning under -strict"
 	}
 	desc := fmt.Sprintf("peg %s (%s)", strings.Join(args, " "), sc)
+	if os.Getenv("VERIF_DEBUG") != "" && sc.Grammar == "syntax-error" {
+		fmt.Fprintf(os.Stderr, "DEBUG %s cause=%q exit=%d stderr=%q\n", sc, cause, exit, firstLine(stderr))
+	}
 	if cause != "" {
 		if exit == 0 {
 			return fmt.Sprintf("%s: exit status 0 although %s (stderr: %q)", desc, cause, firstLine(stderr))
